@@ -264,6 +264,11 @@ func cmdCheck(args []string) int {
 			}
 			nObl++
 			reports = append(reports, oblReport{o.Name, o.Kind, o.Result, o.Solver, o.Ms, o.Src})
+			if o.Result == "skipped" {
+				// fail-fast: the function already has reported violations; this frame obligation was
+				// not attempted (it stays undischarged in the evidence, no separate VIOLATION line)
+				continue
+			}
 			if ok {
 				nDis++
 				if len(samples) < 3 && o.Kind != "cover" {
